@@ -776,6 +776,11 @@ func (s *Server) startIPCPNegotiation(session *Session) {
 
 // handleIPCP handles IPCP packets
 func (s *Server) handleIPCP(session *Session, data []byte) {
+	// No IP-layer negotiation before successful authentication
+	if !session.Authenticated {
+		return
+	}
+
 	pkt, err := ParseLCPPacket(data)
 	if err != nil {
 		return
